@@ -73,7 +73,7 @@ static uint64_t mix64(uint64_t a, uint64_t b) {
 enum TState { T_UNUSED = 0, T_RUNNABLE, T_BLOCKED, T_EXITED };
 enum { WR_WOKEN = 0, WR_TIMEOUT = 1, WR_SPURIOUS = 2 };
 enum Policy { POL_RANDOM = 0, POL_PCT = 1, POL_RR = 2, POL_NPOL = 3 };
-enum DType { D_SWITCH = 1, D_PICK = 2, D_WAKECHOICE = 3, D_FAULT = 4, D_LATE = 5, D_SLOW = 6, D_YIELDNOOP = 7, D_EINTR = 8 };
+enum DType { D_SWITCH = 1, D_PICK = 2, D_WAKECHOICE = 3, D_FAULT = 4, D_LATE = 5, D_SLOW = 6, D_YIELDNOOP = 7, D_EINTR = 8, D_STOREDELAY = 9 };
 
 struct SimThread {
   int id;
@@ -166,7 +166,9 @@ struct Global {
   std::vector<uint32_t>* rplan; // replay input
   size_t rplanpos;
   // prng
-  Rng r_plan, r_sched, r_fault, r_kernel;
+  Rng r_plan, r_sched, r_fault, r_kernel, r_conf;
+  uint32_t conflict_q;      // per-run probability (x/1024) of stalling a thread at a communication point
+  uint64_t conflict_stalls; // how many were taken
   // policy
   int policy;
   uint32_t p_switch_num; // RANDOM: switch prob = num/1024
@@ -455,13 +457,13 @@ extern "C" void sim_result_line(char* buf, size_t n, const char* status, const c
       "{\"seed\":%llu,\"workload\":\"%s\",\"status\":\"%s\",\"class\":\"%s\",\"msg\":\"%s\",\"fp\":\"%016llx\",\"steps\":%llu,"
       "\"switches\":%llu,\"simtime_ns\":%llu,\"threads\":%d,\"blocks\":%llu,\"idle_jumps\":%llu,"
       "\"futex_timeouts\":%llu,\"events\":%llu,\"policy\":%d,\"sched_sig\":\"%016llx\",\"shape\":\"%016llx\","
-      "\"tail\":%d,\"notes\":\"%s\",\"faults\":[",
+      "\"tail\":%d,\"cstalls\":%llu,\"notes\":\"%s\",\"faults\":[",
       (unsigned long long)g.opts.seed, g.opts.workload ? g.opts.workload : "", status, ecls, emsg,
       (unsigned long long)g.fp,
       (unsigned long long)g.step, (unsigned long long)g.switches, (unsigned long long)g.now, g.nth,
       (unsigned long long)g.blocks, (unsigned long long)g.idle_jumps, (unsigned long long)g.futex_timeouts,
       (unsigned long long)g.events, g.policy, (unsigned long long)g.sched_sig, (unsigned long long)g.shape,
-      g.in_tail ? 1 : 0, enotes);
+      g.in_tail ? 1 : 0, (unsigned long long)g.conflict_stalls, enotes);
   for (int k = 0; k < SF_NKINDS; ++k)
     o += (size_t)snprintf(buf + o, n - o, "%s%llu", k ? "," : "", (unsigned long long)g.fired[k]);
   o += (size_t)snprintf(buf + o, n - o, "],\"probes\":[");
@@ -1005,11 +1007,218 @@ static int decide_switch(SimThread* t, bool forced) {
   return target;
 }
 
+// ------------------------------------------------------------------------------------------
+// x86-TSO store buffers (fault kind SF_STORE_BUFFER).  One thread runs at a time, so without this
+// every execution is sequentially consistent and a missing StoreLoad barrier (a seq_cst fence or
+// store weakened to release/acq_rel, a Dekker-style "publish then check" without a full barrier)
+// is invisible.  Here a non-seq_cst atomic store may sit in its thread's FIFO store buffer for a
+// seeded number of points before it reaches memory: the storing thread sees it at once (store
+// forwarding), other threads later, stores of one thread become visible in program order, and a
+// locked instruction (RMW, CAS, seq_cst store = xchg), an mfence (seq_cst fence) or a kernel entry
+// drains the buffer first.  That is the x86-TSO model; nothing weaker is modelled.
+//
+// Plain (non-atomic) stores are executed natively and cannot be buffered; a plain access of the
+// storing thread that overlaps one of its pending entries drains its buffer first, which needs the
+// plain-access instrumentation of the fine variants (buffering is off until a plain-access hook has
+// been seen).  Stores to the running thread's own stack are never buffered (a frame may return and
+// be reused by plain stores we do not see in uninstrumented code).
+// ------------------------------------------------------------------------------------------
+struct SbEnt {
+  uintptr_t addr;
+  uint64_t val;
+  uint64_t due;
+  uint8_t size;
+};
+struct StoreBuf {
+  SbEnt e[16];
+  int n;
+};
+static StoreBuf g_sb[kMaxThreads];
+static int g_sb_pending;
+static bool g_plain_hooks_seen;
+int sim_tso_active;
+
+static void sb_apply(const SbEnt& x) {
+  switch (x.size) {
+    case 1:
+      __atomic_store_n((volatile uint8_t*)x.addr, (uint8_t)x.val, __ATOMIC_SEQ_CST);
+      break;
+    case 2:
+      __atomic_store_n((volatile uint16_t*)x.addr, (uint16_t)x.val, __ATOMIC_SEQ_CST);
+      break;
+    case 4:
+      __atomic_store_n((volatile uint32_t*)x.addr, (uint32_t)x.val, __ATOMIC_SEQ_CST);
+      break;
+    default:
+      __atomic_store_n((volatile uint64_t*)x.addr, (uint64_t)x.val, __ATOMIC_SEQ_CST);
+      break;
+  }
+}
+static void sb_pop_front(StoreBuf& b) {
+  sb_apply(b.e[0]);
+  for (int i = 1; i < b.n; ++i)
+    b.e[i - 1] = b.e[i];
+  b.n--;
+  g_sb_pending--;
+}
+static void sb_flush(int tid) {
+  StoreBuf& b = g_sb[tid];
+  while (b.n > 0)
+    sb_pop_front(b);
+}
+static void sb_flush_all() {
+  for (int i = 0; i < g.nth && g_sb_pending > 0; ++i)
+    sb_flush(i);
+}
+static void sb_drain_due() {
+  for (int i = 0; i < g.nth && g_sb_pending > 0; ++i) {
+    StoreBuf& b = g_sb[i];
+    while (b.n > 0 && b.e[0].due <= g.step)
+      sb_pop_front(b);
+  }
+}
+extern "C" void sim_tso_flush_self(void) {
+  if (g_sb_pending && tl_self)
+    sb_flush(tl_self->id);
+}
+extern "C" int sim_tso_forward(const volatile void* addr, int size, uint64_t* val) {
+  SimThread* t = tl_self;
+  if (!t)
+    return 0;
+  StoreBuf& b = g_sb[t->id];
+  uintptr_t a = (uintptr_t)addr;
+  for (int i = b.n - 1; i >= 0; --i) {
+    const SbEnt& x = b.e[i];
+    if (x.addr == a && x.size == size) {
+      *val = x.val;
+      return 1;
+    }
+    if (x.addr < a + (uintptr_t)size && a < x.addr + x.size) {
+      sb_flush(t->id); // partial overlap: let memory sort it out
+      return 0;
+    }
+  }
+  return 0;
+}
+extern "C" int sim_tso_store(volatile void* addr, int size, uint64_t val, int mo) {
+  SimThread* t = tl_self;
+  if (!t || !g.active)
+    return 0;
+  if (mo == 5) { // seq_cst store: xchg
+    sb_flush(t->id);
+    return 0;
+  }
+  StoreBuf& b = g_sb[t->id];
+  uint32_t d = 0;
+  if (g.replay) {
+    int64_t v;
+    if (replay_take(D_STOREDELAY, &v) && v > 0)
+      d = (uint32_t)v;
+  } else if (g.faults_enabled && !g.in_tail && (g.faults_on & SF_BIT(SF_STORE_BUFFER)) && g_plain_hooks_seen) {
+    char probe;
+    uintptr_t sp = (uintptr_t)&probe, a = (uintptr_t)addr;
+    bool ownStack = a + 4096 > sp && a < sp + (1u << 20);
+    if (!ownStack && g.r_fault.below(2) == 0) {
+      static const uint32_t ds[] = {4, 8, 16, 40, 100, 250, 600};
+      d = ds[g.r_fault.below(7)];
+    }
+  }
+  if (d == 0 && b.n == 0)
+    return 0;
+  if (b.n == 16)
+    sb_pop_front(b);
+  uint64_t due = g.step + d;
+  if (b.n && b.e[b.n - 1].due > due)
+    due = b.e[b.n - 1].due; // FIFO: never visible before an older store of the same thread
+  if (d) {
+    record(D_STOREDELAY, (int64_t)d);
+    g.fired[SF_STORE_BUFFER]++;
+  }
+  SbEnt& x = b.e[b.n++];
+  x.addr = (uintptr_t)addr;
+  x.val = val;
+  x.due = due;
+  x.size = (uint8_t)size;
+  g_sb_pending++;
+  return 1;
+}
+extern "C" void sim_tso_free_range(const void* addr, size_t size) {
+  if (!g_sb_pending)
+    return;
+  uintptr_t lo = (uintptr_t)addr, hi = lo + size;
+  for (int i = 0; i < g.nth; ++i) {
+    StoreBuf& b = g_sb[i];
+    bool hit = false;
+    for (int k = 0; k < b.n; ++k)
+      if (b.e[k].addr >= lo && b.e[k].addr < hi)
+        hit = true;
+    if (hit)
+      sb_flush(i); // (drains the whole buffer: order is kept)
+  }
+}
+// a plain access by the running thread: if it overlaps one of its own pending stores, program order
+// says the pending store comes first
+static inline void sb_plain_access(SimThread* t, const void* addr, int size) {
+  g_plain_hooks_seen = true;
+  StoreBuf& b = g_sb[t->id];
+  if (!b.n)
+    return;
+  uintptr_t a = (uintptr_t)addr;
+  for (int k = 0; k < b.n; ++k)
+    if (b.e[k].addr < a + (uintptr_t)size && a < b.e[k].addr + b.e[k].size) {
+      sb_flush(t->id);
+      return;
+    }
+}
+
+// ------------------------------------------------------------------------------------------
+// communication-point stalls.  The windows that matter are a few atomic operations wide and lie
+// between one thread's accesses to a location and another thread's: when the running thread is
+// about to operate on a location that a DIFFERENT thread touched within the last few hundred
+// points (and one of the two operations writes), it may be held back for a short, seeded number
+// of points *before* its operation takes effect, so the other thread can finish what it is in the
+// middle of.  It is an ordinary pre-emption (recorded as a stall decision, replayed as one).
+// ------------------------------------------------------------------------------------------
+struct RecentAcc {
+  uintptr_t addr;
+  uint64_t step;
+  int tid;
+  bool write;
+};
+static RecentAcc g_recent[1024];
+static void conflict_point(SimThread* t, int kind, const void* addr) {
+  uintptr_t a = (uintptr_t)addr;
+  RecentAcc& e = g_recent[(a >> 2) & 1023];
+  bool isWrite = kind != SP_LOAD;
+  if (!g.replay && g.conflict_q && g.faults_enabled && !g.in_tail && e.addr == a && e.tid != t->id &&
+      g.step - e.step <= 300 && (isWrite || e.write) && t->stall_until <= g.step) {
+    if (g.r_conf.below(1024) < g.conflict_q) {
+      int cand[kMaxThreads];
+      if (collect_candidates(cand, t->id) > 0) {
+        int64_t param = 6 + (int64_t)g.r_conf.below(150);
+        record(D_FAULT, (int64_t)SF_STALL | (param << 8));
+        apply_fault(SF_STALL, param);
+        g.conflict_stalls++;
+      }
+    }
+  }
+  e.addr = a;
+  e.step = g.step;
+  e.tid = t->id;
+  e.write = isWrite;
+}
+
 extern "C" void sim_point(int kind, const void* addr) {
   SimThread* t = tl_self;
   if (!t || !g.active || t->st != T_RUNNABLE)
     return;
   advance(kind == SP_YIELD ? 1000 : (kind == SP_CLOCK ? 50 : 10));
+  if (g_sb_pending) {
+    // locks, semaphores, futexes and every other kernel entry drain the caller's store buffer
+    if ((kind >= SP_FUTEX_WAIT && kind <= SP_SLEEP) || (kind >= SP_ONCE && kind <= SP_EVENT_WAKE))
+      sb_flush(t->id);
+    sb_drain_due();
+  }
   t->points++;
   t->run_streak++;
   if (kind == SP_LOAD) {
@@ -1021,6 +1230,8 @@ extern "C" void sim_point(int kind, const void* addr) {
   }
   if (g.watch_addr && addr == g.watch_addr && g.watch_cb)
     g.watch_cb(addr, kind, t->id);
+  if (addr && kind >= SP_LOAD && kind <= SP_CAS)
+    conflict_point(t, kind, addr);
   int target = decide_switch(t, false);
   if (target >= 0 && target != t->id)
     switch_to(target);
@@ -1169,6 +1380,7 @@ extern "C" void sim_plain_point_n(void* pc, const void* addr, int is_write, int 
   SimThread* t = tl_self;
   if (!t || !g.active || t->st != T_RUNNABLE)
     return;
+  sb_plain_access(t, addr, size);
   uintptr_t a = (uintptr_t)pc;
   PcCache& e = g_pc_cache[(a >> 2) & 0xffff];
   if (e.pc != a) {
@@ -1675,6 +1887,7 @@ static void sim_thread_exit(SimThread* t) {
   if (!g.active || t->st == T_EXITED)
     return;
   advance(10);
+  sb_flush(t->id);
   t->st = T_EXITED;
   t->wk = SW_NONE;
   // wake joiners
@@ -2025,6 +2238,11 @@ extern "C" void sim_begin(const SimOpts* o) {
   g.r_sched.s = mix64(o->seed, 2);
   g.r_fault.s = mix64(o->seed, 3);
   g.r_kernel.s = mix64(o->seed, 4);
+  g.r_conf.s = mix64(o->seed, 5);
+  {
+    static const uint32_t qs[] = {0, 100, 350, 800, 350};
+    g.conflict_q = (o->fault_mask & SF_BIT(SF_STALL)) ? qs[g.r_conf.below(5)] : 0;
+  }
   g.fault_rate_scale = 1000;
   if (o->replay_path) {
     if (!load_replay(o->replay_path)) {
@@ -2061,6 +2279,7 @@ extern "C" void sim_begin(const SimOpts* o) {
         g.faults_on |= SF_BIT(k);
   }
   g.faults_enabled = g.faults_on != 0;
+  sim_tso_active = g.replay ? 1 : ((g.faults_on & SF_BIT(SF_STORE_BUFFER)) ? 1 : 0);
   static const uint32_t gaps[] = {1500, 5000, 15000, 50000};
   g.fault_gap = gaps[cfg.below(4)];
   g.wake_policy = (int)cfg.below(3);
@@ -2093,6 +2312,7 @@ extern "C" void sim_begin(const SimOpts* o) {
 
 extern "C" void sim_end(void) {
   SimThread* t = self();
+  sb_flush_all();
   // wait for every simulated thread to exit (detached ones included)
   g.finishing = true;
   for (int i = 1; i < g.nth; ++i) {
